@@ -114,6 +114,45 @@ type vc12Case struct {
 
 	// reqObj are the request objects of the two sides, reused for every query.
 	reqObj [2]*filter.Request
+
+	// targets maps a lower-cased CNAME target to its spellings in upstream
+	// answers so far and when each was last filtered.
+	targets map[string]map[string]int
+}
+
+// drawTarget draws the target of a CNAME record: a name of the pool in a drawn
+// spelling, or a name that has been a target since the last refresh in another
+// spelling, so that both orders (lower case first, lower case second) occur
+// while the first is still cached.  Rule lists spell names in lower case.
+func (c *vc12Case) drawTarget() string {
+	t := c.t
+	var recent []string
+	for lower, spellings := range c.targets {
+		for _, ep := range spellings {
+			if ep == c.epoch && !slices.Contains(recent, lower) {
+				recent = append(recent, lower)
+			}
+		}
+	}
+
+	slices.Sort(recent)
+	if len(recent) > 0 && rapid.Bool().Draw(t, "respell") {
+		lower := rapid.SampledFrom(recent).Draw(t, "retarget")
+		if _, ok := c.targets[lower][lower]; ok || rapid.Bool().Draw(t, "upperagain") {
+			// The lower-case spelling has been seen: now another one.
+			for range 4 {
+				if s := vc12Spell(t, lower); s != lower {
+					return s
+				}
+			}
+
+			return strings.ToUpper(lower)
+		}
+
+		return lower
+	}
+
+	return vc12Spell(t, dns.Fqdn(rapid.SampledFrom(vc12Hosts).Draw(t, "target")))
 }
 
 // modelWorlds returns the list versions the storages may be serving.
@@ -187,10 +226,11 @@ func (c *vc12Case) checkErrs(when string) {
 func vc12NewCase(t *rapid.T, st *vstat.Stats, srv *vc12Srv, base string, nClients int) (c *vc12Case) {
 	c = &vc12Case{
 		t: t, st: st, srv: srv,
-		conf:   &vc12SideConf{CacheCount: rapid.SampledFrom(vc12CacheCounts).Draw(t, "cachecount")},
-		seen:   map[string]map[int]int{},
-		last:   map[string]vc12Last{},
-		hpSeen: map[string][]vc12HPSeen{},
+		conf:    &vc12SideConf{CacheCount: rapid.SampledFrom(vc12CacheCounts).Draw(t, "cachecount")},
+		seen:    map[string]map[int]int{},
+		targets: map[string]map[string]int{},
+		last:    map[string]vc12Last{},
+		hpSeen:  map[string][]vc12HPSeen{},
 	}
 	for k := range c.conf.HPRepl {
 		c.conf.HPRepl[k] = rapid.SampledFrom(vc12Repls).Draw(t, "hprepl")
@@ -867,19 +907,54 @@ func (c *vc12Case) query(exchange bool) {
 	c.st.Case(nt, classes...)
 
 	if exchange && want.Kind != "modreq" {
-		c.response(ri, &q, fGot, fWant, want)
+		c.response(ri, &q, fGot, fWant, want, nil)
 	}
 }
 
 // response sends the upstream response to q through the composite filters the
 // request went through.
-func (c *vc12Case) response(ri int, q *vc12Q, fGot, fWant filter.Interface, reqRes vc12Res) {
+func (c *vc12Case) response(ri int, q *vc12Q, fGot, fWant filter.Interface, reqRes vc12Res, forced []dns.RR) {
 	t := c.t
 	r := c.reqs[ri]
 
 	resp := (&dns.Msg{}).SetReply(q.msg())
-	resp.Answer = vc12DrawAnswers(t, q.Name)
+	resp.Answer = forced
+	if forced == nil {
+		resp.Answer = vc12DrawAnswers(t, q.Name, c.drawTarget)
+	}
 	items := vc12AnswerItems(resp.Answer)
+
+	// Which CNAME targets are spelled with upper-case letters, and which have
+	// been filtered in another spelling since the last refresh or update.
+	var caseClasses []string
+	for _, rr := range resp.Answer {
+		cn, ok := rr.(*dns.CNAME)
+		if !ok {
+			continue
+		}
+
+		lower := strings.ToLower(cn.Target)
+		if cn.Target != lower {
+			caseClasses = append(caseClasses, "resp-target-mixed-case")
+		}
+
+		for spelling, ep := range c.targets[lower] {
+			if spelling != cn.Target && ep == c.epoch {
+				caseClasses = append(caseClasses, "same-target-two-spellings-while-cached")
+				if spelling == lower {
+					caseClasses = append(caseClasses, "two-spellings-lower-first")
+				} else if cn.Target == lower {
+					caseClasses = append(caseClasses, "two-spellings-lower-second")
+				}
+			}
+		}
+
+		if c.targets[lower] == nil {
+			c.targets[lower] = map[string]int{}
+		}
+
+		c.targets[lower][cn.Target] = c.epoch
+	}
 
 	mk := func() *filter.Response {
 		return &filter.Response{DNS: resp.Copy(), RemoteIP: q.request(r, 0).RemoteIP, ClientName: r.CliName}
@@ -910,6 +985,7 @@ func (c *vc12Case) response(ri int, q *vc12Q, fGot, fWant filter.Interface, reqR
 	key := fmt.Sprintf("%v/resp", items)
 	nt, classes := c.classify(ri, key, want)
 	classes = append(classes, "op-response")
+	classes = append(classes, caseClasses...)
 	if want.Kind != "nil" {
 		classes = append(classes, "response-filtered")
 		switch reqRes.Kind {
@@ -933,6 +1009,32 @@ func (c *vc12Case) response(ri int, q *vc12Q, fGot, fWant filter.Interface, reqR
 	// The response is the caller's again.
 	vc12Scribble(gotResp.DNS)
 	c.st.Case(nt, classes...)
+
+	// Often the next answer through the same lists names the same target in
+	// the other spelling: lower case after upper or mixed, or the reverse.
+	if forced != nil {
+		return
+	}
+
+	for _, rr := range resp.Answer {
+		cn, ok := rr.(*dns.CNAME)
+		if !ok || rapid.IntRange(0, 2).Draw(t, "respellnext") == 0 {
+			continue
+		}
+
+		other := strings.ToLower(cn.Target)
+		if other == cn.Target {
+			other = strings.ToUpper(cn.Target)
+			if s := vc12Spell(t, cn.Target); s != cn.Target {
+				other = s
+			}
+		}
+
+		next := &dns.CNAME{Hdr: cn.Hdr, Target: other}
+		c.response(ri, q, fGot, fWant, reqRes, []dns.RR{next})
+
+		break
+	}
 }
 
 func TestVerifC12Histories(t *testing.T) {
@@ -951,7 +1053,8 @@ func TestVerifC12Histories(t *testing.T) {
 		"hp-key-built-for-other-params", "near-miss-qtype", "near-miss-class", "near-miss-host", "host-root", "host-off-pool",
 		"exchange-request-passed-response-filtered", "exchange-request-allowed-response-filtered", "exchange-both-stages-filtered",
 		"op-refresh-hp-rejected", "op-refresh-storage-rejected", "key-asked-before-rejected-hp-refresh-that-changes-it",
-		"op-refresh-hp-from-file", "filtering-off-nil-config")
+		"op-refresh-hp-from-file", "filtering-off-nil-config", "resp-target-mixed-case", "same-target-two-spellings-while-cached",
+		"two-spellings-lower-first", "two-spellings-lower-second")
 	st.Finish(t)
 
 	srv := vc12NewSrv(t)
